@@ -1,54 +1,16 @@
-(* C05 — is_empty (code after fix 1a8142c: the whole bitmap is inspected), every schedule.
+(* C05 — is_empty (code after fixes 1a8142c and 0248974: the whole bitmap of every block of the chain is
+   inspected), every schedule, any number of threads.
    Fix a reachable configuration in which thread t has just executed its 520 step on a non-empty
-   tail (pc E1 b0), let nx0 be the link of b0 and Ob any set of slots published at that moment
-   (= pushes completed before the call's first step).  If the call later returns TRUE then
-     - no member of Ob is in the head block b0, nor in its successor (what the code inspects);
-     - if b0 has a successor at all, then all B slots of that (full) successor were claimed and
-       unpublished when it was inspected, so MORE THAN B threads exist;
-   hence with at most B threads, is_empty = true implies that no push that completed before the
-   call began was resident in the chain from the tail it loaded.  If the call returns FALSE some
-   slot is published (the answer is not invented).                                             *)
+   tail (pc E1 b0) and let Ob be any set of slots that are published at that moment in blocks
+   reachable from b0 (= pushes completed before the call's first step and resident in the live
+   chain).  If the call later returns TRUE then Ob is empty; if it returns FALSE some slot is
+   published (the answer is not invented).
+   [step_lookback1] is the code between the two fixes (whole bitmap, but only the head block and its
+   successor are inspected): kept for the regression witness with 67 threads.                    *)
 From Coq Require Import List NArith Bool Arith Lia.
 Import ListNotations.
 Require Import MV.Common.Interleave MV.C05.Model MV.C05.ProofsSeq MV.C05.ProofsInv MV.C05.ProofsCor MV.C05.ProofsUniq MV.C05.ProofsCons MV.C05.ProofsSnap.
 Local Open Scope nat_scope.
-
-(* ---- counting threads in flight on one block *)
-Fixpoint sumi (f : nat -> nat) (n : nat) : nat := match n with O => O | S m => sumi f m + f m end.
-
-Lemma sumi_ext f g n : (forall i, i < n -> f i = g i) -> sumi f n = sumi g n.
-Proof. induction n; intros H; cbn; auto. rewrite IHn, (H n) by auto with arith. reflexivity. Qed.
-
-Lemma sumi_const1 f n : (forall i, i < n -> f i = 1) -> sumi f n = n.
-Proof. induction n; intros H; cbn; auto. rewrite IHn, (H n) by auto with arith. lia. Qed.
-
-Lemma sumi_zero n : sumi (fun _ => 0) n = 0.
-Proof. induction n; cbn; lia. Qed.
-
-Lemma sumi_point j n : sumi (fun i => if Nat.eqb j i then 1 else 0) n = if Nat.ltb j n then 1 else 0.
-Proof.
-  induction n; cbn [sumi]; auto. rewrite IHn.
-  destruct (Nat.ltb_spec j n), (Nat.eqb_spec j n), (Nat.ltb_spec j (S n)); lia.
-Qed.
-
-Lemma sumf_add {A} (f g : A -> nat) ls : sumf (fun l => f l + g l) ls = sumf f ls + sumf g ls.
-Proof. induction ls; cbn; lia. Qed.
-
-Lemma sumi_sumf {A} (F : nat -> A -> nat) ls n :
-  sumi (fun i => sumf (F i) ls) n = sumf (fun l => sumi (fun i => F i l) n) ls.
-Proof.
-  induction n; cbn [sumi].
-  - induction ls; cbn; auto.
-  - rewrite IHn, <- sumf_add. reflexivity.
-Qed.
-
-Lemma sumf_bound {A} (f : A -> nat) ls t l :
-  (forall x, f x <= 1) -> nth_error ls t = Some l -> f l = 0 -> sumf f ls + 1 <= length ls.
-Proof.
-  intros Hle. revert t. induction ls as [|y r IH]; intros [|t] H H0; cbn in *; try discriminate.
-  - inversion H; subst. rewrite H0. clear IH. induction r; cbn; auto. specialize (Hle a). lia.
-  - specialize (IH t H H0). specialize (Hle y). lia.
-Qed.
 
 Lemma existsb_false_nth (l : list bool) : existsb (fun x => x) l = false -> forall i, nth i l false = false.
 Proof. induction l as [|a r IH]; intros H [|i]; cbn in *; auto; apply orb_false_iff in H; destruct H; auto. Qed.
@@ -59,63 +21,58 @@ Proof.
   - exists 0. exact H. - destruct (IH H) as [i Hi]. exists (S i). exact Hi.
 Qed.
 
+(* the code between fix 1a8142c and fix 0248974: one look-back only *)
+Definition step_lookback1 (B : nat) (s : shared) (l : local) : option (shared * local) :=
+  match pcl l with
+  | E3 nb => Some (s, finish l (REmpty (looks_empty true (getb (heap s) nb))))
+  | _ => step B true true s l
+  end.
+
+(* a chain is linear: of two blocks on it, one is at or before the other, or behind it *)
+Lemma chain_linear h : forall o b, Reach h o b -> forall d, Reach h o d -> links_dec h ->
+  b <= d \/ Reach h (bnxt (getb h b)) d.
+Proof.
+  intros o b R. induction R as [b|a b R IH]; intros d Rd HL.
+  - inversion Rd; subst; [left; lia|right; assumption].
+  - inversion Rd; subst.
+    + left. destruct (bnxt (getb h d)) as [a'|] eqn:En; [|destruct (Reach_None _ _ R)].
+      pose proof (Reach_le 1 (le_n 1) h HL _ _ R a' eq_refl). specialize (HL d a' En). lia.
+    + apply IH; assumption.
+Qed.
+
+Lemma Reach_next' h o b nb : Reach h o b -> bnxt (getb h b) = Some nb -> Reach h o nb.
+Proof.
+  intros R E. induction R as [b|c b R IH].
+  - apply r_next. rewrite E. constructor.
+  - apply r_next. apply IH. exact E.
+Qed.
+
 Section Empty.
   Variable B : nat.
   Hypothesis HB : 1 <= B.
   Notation step := (step B true true).
   Variable t : nat.
   Variable b0 : nat.                         (* the tail pointer is_empty loaded at 520 *)
-  Variable nx0 : option nat.                 (* its link *)
-  Variable nthreads : nat.
   Variable Ob : nat -> nat -> val -> Prop.
   Variable r0 : list res.
 
-  Definition noOb (b : nat) : Prop := forall i x, ~ Ob b i x.
-
-  Definition emp_pc (l : local) : Prop :=
+  Definition emp_pc (h : list block) (l : local) : Prop :=
     match pcl l with
     | E1 b => b = b0
-    | E2 b => b = b0 /\ noOb b0
-    | E3 nb => nx0 = Some nb /\ noOb b0
+    | E2 b => Reach h (Some b0) b /\ forall d i x, Ob d i x -> d < b
+    | E3 nb => Reach h (Some b0) nb /\ forall d i x, Ob d i x -> d <= nb
     | _ => False
     end.
 
   Definition emp_done (h : list block) (l : local) : Prop :=
     exists rs1 r, results l = rs1 ++ REmpty r :: r0 /\
-      (r = true -> noOb b0 /\ forall nb, nx0 = Some nb -> noOb nb /\ B < nthreads) /\
+      (r = true -> forall d i x, ~ Ob d i x) /\
       (r = false -> exists d i, pub h d i).
 
   Definition EmpInv (c : @config shared local) : Prop :=
-    (b0 < length (heap (fst c)) /\ bnxt (getb (heap (fst c)) b0) = nx0 /\ length (snd c) = nthreads /\
-     forall d i x, Ob d i x -> pub (heap (fst c)) d i) /\
-    (forall l, nth_error (snd c) t = Some l -> (results l = r0 /\ emp_pc l) \/ emp_done (heap (fst c)) l).
-
-  Lemma inflight_total b l : sumi (fun i => inflight b i l) B <= 1.
-  Proof.
-    unfold inflight. destruct (pcl l); try (rewrite sumi_zero; lia);
-      match goal with
-      | |- context [Nat.eqb ?bb b && Nat.eqb ?ii _] =>
-          destruct (Nat.eqb bb b); cbn [andb];
-          [rewrite (sumi_point ii B); destruct (Nat.ltb ii B); lia | rewrite sumi_zero; lia]
-      end.
-  Qed.
-
-  (* a block whose B slots are all claimed and none published keeps B distinct threads busy *)
-  Lemma all_in_flight s ls l nb :
-    Inv B (s, ls) -> nth_error ls t = Some l -> (forall i, inflight nb i l = 0) ->
-    nb < length (heap s) -> B <= bw (getb (heap s) nb) -> (forall i, nth i (bdone (getb (heap s) nb)) false = false) ->
-    B < length ls.
-  Proof.
-    intros (HO & HC & HP) Hl Hz Hnb Hw Hnp. cbn [fst snd] in *.
-    assert (E : sumi (fun i => sumf (inflight nb i) ls) B = B).
-    { apply sumi_const1. intros i Hi. pose proof (HC nb i Hnb Hi) as Hc. unfold claim_ok in Hc.
-      replace (Nat.ltb i (bw (getb (heap s) nb))) with true in Hc by (symmetry; apply Nat.ltb_lt; lia).
-      rewrite Hnp in Hc. exact Hc. }
-    rewrite sumi_sumf in E.
-    pose proof (sumf_bound (fun x => sumi (fun i => inflight nb i x) B) ls t l (inflight_total nb) Hl) as Hb.
-    assert (Hz' : sumi (fun i => inflight nb i l) B = 0) by (rewrite (sumi_ext _ (fun _ => 0)) by (intros; apply Hz); apply sumi_zero).
-    specialize (Hb Hz'). cbv beta in Hb. lia.
-  Qed.
+    (b0 < length (heap (fst c)) /\
+     forall d i x, Ob d i x -> Reach (heap (fst c)) (Some b0) d /\ pub (heap (fst c)) d i) /\
+    (forall l, nth_error (snd c) t = Some l -> (results l = r0 /\ emp_pc (heap (fst c)) l) \/ emp_done (heap (fst c)) l).
 
   Lemma pub_lt h d i : pub h d i -> d < length h.
   Proof. intros H. destruct (Nat.lt_ge_cases d (length h)); auto. destruct (pub_out h d i H0 H). Qed.
@@ -126,55 +83,49 @@ Section Empty.
 
   Theorem Emp_step : step_preserves step (fun c => All B c /\ EmpInv c).
   Proof.
-    intros s ls u lu s' lu' [HA [(Hb0 & Hnx & Hlen & HOb) HT]] Hl Hst. split; [eapply (All_step B HB true); eauto|].
+    intros s ls u lu s' lu' [HA [(Hb0 & HOb) HT]] Hl Hst. split; [eapply (All_step B HB true); eauto|].
     pose proof HA as (HI & _). pose proof HI as (HO & HC & HP). cbn [fst snd] in *.
+    pose proof (links_of_heap_ok B s HO) as HL.
+    assert (Rmono : forall d, Reach (heap s) (Some b0) d -> Reach (heap s') (Some b0) d).
+    { intros d R. eapply (Reach_step B HB true); eauto. intros r E. inversion E; subst. exact Hb0. }
     split; cbn [fst snd].
     - split; [destruct (step_length B HB true s lu s' lu' Hst) as [E|[E _]]; lia|].
-      split; [rewrite (bnxt_step B true s ls u lu s' lu' b0 HI Hl Hst Hb0); exact Hnx|].
-      split; [rewrite upd_length; exact Hlen|].
-      intros d i x Hx. eapply pub_step; eauto.
+      intros d i x Hx. destruct (HOb d i x Hx) as [R Hp]. split; [apply Rmono; exact R|exact (pub_step s ls u lu s' lu' d i HI Hl Hst Hp)].
     - intros l Hlt. destruct (Nat.eq_dec u t) as [->|Hne].
       + rewrite (nth_error_upd_same _ _ _ _ Hl) in Hlt. inversion Hlt; subst l. clear Hlt.
         assert (Eres : forall m k td rs, results (enter m k td rs) = rs) by (intros m k [|[]] rs; reflexivity).
         destruct (HT lu Hl) as [[Hn Hs]|(rs1 & r & Er & Htrue & Hfalse)].
-        * unfold emp_pc in Hs.
-          assert (Es : s' = s).
-          { clear - Hst Hs. unfold Model.step in Hst. destruct (pcl lu); try contradiction;
-              repeat match type of Hst with
-                     | context [match bnxt ?k with _ => _ end] => destruct (bnxt k)
-                     | context [if ?c then _ else _] => destruct c
-                     end; inversion Hst; reflexivity. }
-          subst s'. pose proof (HP t lu Hl) as Hpl. unfold pc_ok in Hpl.
-          step_inv Hst Epc; try contradiction; unfold emp_pc, emp_done, finish; rewrite ?Eres; cbn [goto mk pcl results].
-          -- (* 521, head shows nothing *)
-             try subst b. left. split; [exact Hn|]. split; [reflexivity|]. intros i x Hx.
-             unfold looks_empty in *. apply negb_true_iff in Ec. pose proof (existsb_false_nth _ Ec i) as Hf.
-             pose proof (HOb b0 i x Hx) as Hp. unfold pub in Hp. congruence.
-          -- (* 521, head shows a completed write *)
-             try subst b. right. exists [], false. rewrite Hn. split; [reflexivity|]. split; [discriminate|]. intros _.
-             unfold looks_empty in *. apply negb_false_iff in Ec. destruct (existsb_true_nth _ Ec) as [i Hi]. exists b0, i. exact Hi.
-          -- (* 507, there is a successor *)
-             destruct Hs as [-> Hno]. left. split; [exact Hn|]. split; [congruence|exact Hno].
-          -- (* 507, no successor *)
-             destruct Hs as [-> Hno]. right. exists [], true. rewrite Hn. split; [reflexivity|]. split; [|discriminate].
-             intros _. split; [exact Hno|]. intros nb E. congruence.
-          -- (* 508 *)
-             destruct Hs as [Enx Hno]. right. exists [], (looks_empty true (getb (heap s) nb)). rewrite Hn. split; [reflexivity|].
-             assert (Hlink : nb < b0 /\ B <= bw (getb (heap s) nb)) by (apply (proj1 (proj2 HO) b0 nb Hb0); congruence).
-             unfold looks_empty. split.
-             ++ intros Ht. apply negb_true_iff in Ht. split; [exact Hno|]. intros nb' E. rewrite Enx in E. inversion E; subst nb'.
-                split.
-                ** intros i x Hx. pose proof (HOb nb i x Hx) as Hp. unfold pub in Hp. rewrite (existsb_false_nth _ Ht i) in Hp. discriminate.
-                ** rewrite <- Hlen. eapply (all_in_flight s ls lu nb HI Hl); try lia.
-                   --- intros i. unfold inflight. rewrite Epc. reflexivity.
-                   --- apply existsb_false_nth. exact Ht.
-             ++ intros Hf. apply negb_false_iff in Hf. destruct (existsb_true_nth _ Hf) as [i Hi]. exists nb, i. exact Hi.
+        * unfold emp_pc in Hs. pose proof (HP t lu Hl) as Hpl. unfold pc_ok in Hpl.
+          unfold Model.step in Hst. destruct (pcl lu) eqn:Epc; try contradiction.
+          -- (* 521 *) subst b. destruct (looks_empty true (getb (heap s) b0)) eqn:Ec; inversion Hst; subst s' lu'.
+             ++ left. split; [exact Hn|]. unfold emp_pc. cbn [goto mk pcl]. split; [constructor|].
+                intros d i x Hx. destruct (HOb d i x Hx) as [R Hp]. pose proof (Reach_le B HB _ HL _ _ R b0 eq_refl) as Hle.
+                destruct (Nat.eq_dec d b0) as [->|]; [|lia]. exfalso.
+                unfold looks_empty in Ec. apply negb_true_iff in Ec. unfold pub in Hp. rewrite (existsb_false_nth _ Ec i) in Hp. discriminate.
+             ++ right. unfold emp_done, finish. rewrite Eres, Hn. exists [], false. split; [reflexivity|]. split; [discriminate|]. intros _.
+                unfold looks_empty in Ec. apply negb_false_iff in Ec. destruct (existsb_true_nth _ Ec) as [i Hi]. exists b0, i. exact Hi.
+          -- (* 507 *) destruct Hs as [Rb Hlow]. destruct (bnxt (getb (heap s) b)) as [nb|] eqn:En; inversion Hst; subst s' lu'.
+             ++ left. split; [exact Hn|]. unfold emp_pc. cbn [goto mk pcl]. split; [eapply Reach_next'; eauto|].
+                intros d i x Hx. destruct (HOb d i x Hx) as [R _]. specialize (Hlow d i x Hx).
+                destruct (chain_linear _ _ _ Rb d R HL) as [Hle|Rn]; [lia|]. rewrite En in Rn. apply (Reach_le B HB _ HL _ _ Rn nb eq_refl).
+             ++ right. unfold emp_done, finish. rewrite Eres, Hn. exists [], true. split; [reflexivity|]. split; [|discriminate]. intros _ d i x Hx.
+                destruct (HOb d i x Hx) as [R _]. specialize (Hlow d i x Hx).
+                destruct (chain_linear _ _ _ Rb d R HL) as [Hle|Rn]; [lia|]. rewrite En in Rn. destruct (Reach_None _ _ Rn).
+          -- (* 508 *) destruct Hs as [Rb Hlow]. inversion Hst; subst s' lu'. unfold e3_next, looks_empty.
+             destruct (existsb (fun x : bool => x) (bdone (getb (heap s) nb))) eqn:Ec; cbn [negb].
+             ++ right. unfold emp_done, finish. rewrite Eres, Hn. exists [], false. split; [reflexivity|]. split; [discriminate|]. intros _.
+                destruct (existsb_true_nth _ Ec) as [i Hi]. exists nb, i. exact Hi.
+             ++ left. split; [exact Hn|]. unfold emp_pc. cbn [goto mk pcl]. split; [exact Rb|].
+                intros d i x Hx. destruct (HOb d i x Hx) as [_ Hp]. specialize (Hlow d i x Hx).
+                destruct (Nat.eq_dec d nb) as [->|]; [|lia]. exfalso.
+                unfold pub in Hp. rewrite (existsb_false_nth _ Ec i) in Hp. discriminate.
         * right. unfold emp_done. destruct (step_results B true s lu s' lu' Hst) as [E|[r' E]]; rewrite E, Er.
           -- exists rs1, r. split; [reflexivity|split; [exact Htrue|]]. intros Hf. destruct (Hfalse Hf) as (d & i & Hp). exists d, i. exact (pub_step s ls t lu s' lu' d i HI Hl Hst Hp).
           -- exists (r' :: rs1), r. split; [reflexivity|split; [exact Htrue|]]. intros Hf. destruct (Hfalse Hf) as (d & i & Hp). exists d, i. exact (pub_step s ls t lu s' lu' d i HI Hl Hst Hp).
       + rewrite nth_error_upd_other in Hlt by auto.
-        destruct (HT l Hlt) as [Hleft|(rs1 & r & Er & Htrue & Hfalse)]; [left; exact Hleft|right].
-        exists rs1, r. split; [exact Er|split; [exact Htrue|]]. intros Hf. destruct (Hfalse Hf) as (d & i & Hp). exists d, i. exact (pub_step s ls u lu s' lu' d i HI Hl Hst Hp).
+        destruct (HT l Hlt) as [[Hn Hs]|(rs1 & r & Er & Htrue & Hfalse)].
+        * left. split; [exact Hn|]. unfold emp_pc in *. destruct (pcl l); auto; destruct Hs as [Rb Hlow]; (split; [apply Rmono; exact Rb|exact Hlow]).
+        * right. exists rs1, r. split; [exact Er|split; [exact Htrue|]]. intros Hf. destruct (Hfalse Hf) as (d & i & Hp). exists d, i. exact (pub_step s ls u lu s' lu' d i HI Hl Hst Hp).
   Qed.
 
   Lemma EmpInv_exec c sched : All B c -> EmpInv c -> EmpInv (fst (exec step site c sched)).
@@ -198,19 +149,16 @@ Section EmptyThm.
     let h := heap (fst c) in
     let c' := fst (exec step site c sched) in
     forall l' rs1 r, nth_error (snd c') t = Some l' -> results l' = rs1 ++ REmpty r :: results l ->
-    (r = true ->
-       (forall i, ~ pub h b0 i) /\
-       (forall nb, bnxt (getb h b0) = Some nb -> (forall i, ~ pub h nb i) /\ B < length (snd c)) /\
-       (length (snd c) <= B -> forall d i, Reach h (Some b0) d -> ~ pub h d i)) /\
+    (r = true -> forall d i, Reach h (Some b0) d -> ~ pub h d i) /\
     (r = false -> exists d i, pub (heap (fst c')) d i).
   Proof.
     intros HA Hl Hpc h c' l' rs1 r Hl' Er.
-    set (Ob := fun (d i : nat) (_ : val) => pub h d i).
+    set (Ob := fun (d i : nat) (_ : val) => Reach h (Some b0) d /\ pub h d i).
     pose proof HA as (HI & _). pose proof (proj2 (proj2 HI) t l Hl) as Hp. unfold pc_ok in Hp. rewrite Hpc in Hp.
-    assert (H0 : EmpInv B t b0 (bnxt (getb h b0)) (length (snd c)) Ob (results l) c).
-    { split; [repeat split; auto|]. intros y Hy. rewrite Hl in Hy. inversion Hy; subst y. left. split; [reflexivity|].
+    assert (H0 : EmpInv t b0 Ob (results l) c).
+    { split; [split; [exact Hp|intros d i x Hx; exact Hx]|]. intros y Hy. rewrite Hl in Hy. inversion Hy; subst y. left. split; [reflexivity|].
       unfold emp_pc. rewrite Hpc. reflexivity. }
-    destruct (EmpInv_exec B HB t b0 _ _ Ob (results l) c sched HA H0) as [_ HT]. fold c' in HT.
+    destruct (EmpInv_exec B HB t b0 Ob (results l) c sched HA H0) as [_ HT]. fold c' in HT.
     destruct (HT l' Hl') as [[E _]|(rs1' & r' & Er' & Htrue & Hfalse)].
     - exfalso. rewrite E in Er. apply (f_equal (@length res)) in Er. rewrite app_length in Er. cbn in Er. lia.
     - assert (Eq : rs1 = rs1' /\ r = r').
@@ -218,12 +166,6 @@ Section EmptyThm.
         change (REmpty r' :: results l) with ([REmpty r'] ++ results l) in Er'. rewrite !app_assoc in Er'.
         apply app_inv_tail in Er'. apply app_inj_tail in Er'. destruct Er' as [E1 E2]. inversion E2. auto. }
       destruct Eq as [<- <-]. split; [|exact Hfalse].
-      intros Ht. destruct (Htrue Ht) as [Hno Hnb].
-      assert (N0 : forall b, noOb Ob b -> forall i, ~ pub h b i) by (intros b Hb i Hpb; apply (Hb i garbage); exact Hpb).
-      split; [apply N0; exact Hno|]. split.
-      + intros nb E. destruct (Hnb nb E) as [Hn1 Hn2]. split; [apply N0; exact Hn1|exact Hn2].
-      + intros Hle d i R. inversion R as [|? ? Rn]; subst; [apply N0; exact Hno|].
-        destruct (bnxt (getb h b0)) as [nb|] eqn:E; [|destruct (Reach_None _ _ Rn)].
-        destruct (Hnb nb eq_refl) as [_ Hn2]. lia.
+      intros Ht d i R Hpb. apply (Htrue Ht d i garbage). unfold Ob. auto.
   Qed.
 End EmptyThm.
